@@ -417,5 +417,13 @@ def r13_5(ctx):
         raise AnalysisError(f"only {n} write_config call sites found")
 
 
+def r13_6(ctx):
+    """R13.6 an unchanged configuration touches no trigger file either: the old values read from auto.conf are decoded the way
+    they were written (C12 R12.4: same matcher, strings unescaped) - otherwise an option with a quote or backslash in its
+    value never compares equal and its .cdep file is re-touched on every generation."""
+    from . import c12
+    from .common import delegate
+    delegate(ctx, c12.r12_4, lambda c: c.startswith("Kconfig._load_old_vals/"))
+
 def rules():
-    return [("R13.5", r13_5, 3), ("R13.1", r13_1, 6), ("R13.1b", r13_1b, 2), ("R13.2", r13_2, 4), ("R13.3", r13_3, 4), ("R13.4", r13_4, 3)]
+    return [("R13.6", r13_6, 4), ("R13.5", r13_5, 3), ("R13.1", r13_1, 6), ("R13.1b", r13_1b, 2), ("R13.2", r13_2, 4), ("R13.3", r13_3, 4), ("R13.4", r13_4, 3)]
